@@ -15,7 +15,7 @@ EXPLANATION = (
     'call forwards into the parent\'s own effect and event senders, and no Command value is dropped outside the exception table; R04.d-f builder '
     'chains contain no lossy adaptor and no concurrency limit, then_send emits one event per output, each stage feeds the item once to the '
     'user callback; R04.g crux-provided futures keep the poll\'s waker; R04.h done / event / notify_shell / request_from_shell / '
-    'stream_from_shell make exactly the one context call they stand for, on every path, with their own argument. '
+    'stream_from_shell make exactly the one context call they stand for, on every path, with their own argument; R04.i every task leaving a command wakes its join handles. '
     'Equivalence to the reference semantics, the algebraic laws and the behaviour of then_request/then_stream under every resolution '
     'order quantify over expressions x schedules and are NOT decided.')
 
